@@ -71,6 +71,29 @@ pub fn gen(seed: u64, tier: Tier) -> ScenarioSpec {
         spec.stream.hard_error_call = Some(rng.below(horizon.max(1)) as u32);
         spec.stream.hard_error_kind = rng.below(6) as u8;
     }
+    // the in-progress shape (raw length 0: the recorder has not finalised the file) is a first-class case
+    if rng.chance(1, 8) && !spec.transport_faults.iter().any(|f| f.kind == "raw_len_edit") {
+        spec.transport_faults.push(TransportFault { kind: "raw_len_edit".into(), at: 0, arg: 0, pseed: rng.next_u64() });
+    }
+    // hard error placed at a structural position of the file rather than at a call index
+    if spec.stream.hard_error_call.is_none() && rng.chance(1, 4) {
+        let m = recorder::build(&spec.recorder);
+        let pick = rng.below(10);
+        let off = match pick {
+            0 => m.raw_end as u64,         // the byte that decides between metadata and the closing brace
+            1 => m.raw_end as u64 + 1,
+            2 => (m.raw_end as u64).saturating_sub(1),
+            3 => rng.below(15),            // inside the header
+            4 => m.bytes.len() as u64 - 1, // the final brace
+            5..=7 => {
+                let e = &m.events[rng.usize_below(m.events.len())];
+                e.off as u64 + rng.below(3)
+            }
+            _ => rng.below(m.bytes.len() as u64),
+        };
+        spec.stream.hard_error_offset = Some(off);
+        spec.stream.hard_error_kind = rng.below(6) as u8;
+    }
     if rng.chance(1, 20) {
         spec.stream.seek_error = true;
     }
